@@ -951,6 +951,11 @@ fn gen_doc(rng: &mut Rng, target: RTarget) -> String {
             } else {
                 s.push_str(&format!("{ind}k{i}: {}\n", rng.below(100)));
                 line += 1;
+                // now and then a blank (or blanks-only) line between the entries: it is a line of the window
+                if rng.chance(1, 4) {
+                    s.push_str(if rng.chance(1, 2) { "\n" } else { "   \n" });
+                    line += 1;
+                }
             }
         }
         return s;
